@@ -74,7 +74,7 @@ def JPc.early : JPc → Bool
   | _ => false
 
 theorem JobManifest_early {cfg : Cfg} {s : St} {d : Disk} {e : MRec} {pc : JPc} (h : pc.early = true) :
-    JobManifest cfg s d e pc = Settled cfg s d (Mirror s) := by
+    JobManifest cfg s d e pc = Settled cfg s d (MirrorL s) := by
   cases pc <;> simp_all [JPc.early, JobManifest]
 
 theorem early_beforeCommit {pc : JPc} (h : pc.early = true) : pc.beforeCommit = true := by
@@ -91,7 +91,8 @@ theorem JobOK.early_next {cfg : Cfg} {s : St} {d : Disk} {j : Job} (h : JobOK cf
     (hidx : PcIdxOK { j with pc := pc' })
     (hmk : j.mkJournal = none ∨ ((pc' = .mkJournal ∨ pc'.tablesDone = false) ↔ (j.pc = .mkJournal ∨ j.pc.tablesDone = false)))
     (hed : j.edit.isSome = true)
-    (hT : ∀ t, (∀ o' ∈ j.outs, t ≠ o'.1) → lookup T' t = lookup d.tables t) :
+    (hT : ∀ t, (∀ o' ∈ j.outs, t ≠ o'.1) → lookup T' t = lookup d.tables t)
+    (hnret : j.pc.retry = false := by first | rfl | (simp only [*]; rfl)) :
     JobOK cfg { s with job := some { j with pc := pc' } } { d with tables := T' } { j with pc := pc' } := by
   obtain ⟨h1, h2, h3, h4, h5, h6, h7, h8, h9, h10, h11, h12⟩ := h
   refine ⟨h1, ?_, ?_, ?_, h5, ?_, hidx, ?_, ?_, (fun hn => by
@@ -116,7 +117,13 @@ theorem JobOK.early_next {cfg : Cfg} {s : St} {d : Disk} {j : Job} (h : JobOK cf
       rw [JobManifest_early he] at h3
       rw [JobManifest_early he']
       exact h3
-  · exact ⟨h4.1, fun _ => h4.2 (early_beforeCommit he)⟩
+  · refine ⟨h4.1, fun _ => ?_⟩
+    have := h4.2 (early_beforeCommit he)
+    show Holds (curManifest d) _
+    refine this.imp (fun mf hmf k hk => (hmf k hk).imp (fun v hv => ⟨fun o ho => ?_, hv.2⟩))
+    rcases hv.1 o ho with h0 | h0
+    · exact Or.inl h0
+    · rw [hnret] at h0; exact absurd h0.1 (by simp)
   · intro i o' hio
     show OutOK _ pc' i o'
     rcases ho with ho | ho
@@ -158,6 +165,8 @@ theorem inv_job_tCreate {cfg : Cfg} {s : St} {d : Disk} (h : Inv cfg s d) {j : J
     (by rw [ho]; exact List.mem_singleton.2 rfl) (d.tables.set n {})
     (fun t ht => by rw [lookup_set, if_neg ht]) (nodup_set h.disk.tnodup _ _) (.tWrite 0)
     (by intro m hm; cases hm) _ rfl
+  case hnret => rw [hpc]; rfl
+  case hbc' => exact Or.inr rfl
   apply hok.early_next he (n, gs) (Or.inl ho) _ (.tWrite 0) rfl
   · intro o' ho'
     rw [ho] at ho'
@@ -204,6 +213,8 @@ theorem inv_job_tWrite {cfg : Cfg} {s : St} {d : Disk} (h : Inv cfg s d) {j : Jo
     (by rw [ho]; exact List.mem_singleton.2 rfl) (d.tables.modify n fun t => { t with grps := gs })
     (fun t ht => by rw [lookup_modify, if_neg ht]) (pairwise_keys_modify (R := (· ≠ ·)) _ _ h.disk.tnodup) (.tSync 0)
     (by intro m hm; cases hm) _ rfl
+  case hnret => rw [hpc]; rfl
+  case hbc' => exact Or.inr rfl
   apply hok.early_next he (n, gs) (Or.inl ho) _ (.tSync 0) rfl
   · intro o' ho'
     rw [ho] at ho'
@@ -256,6 +267,8 @@ theorem inv_job_tSync {cfg : Cfg} {s : St} {d : Disk} (h : Inv cfg s d) {j : Job
     (by rw [ho]; exact List.mem_singleton.2 rfl) (d.tables.modify n fun t => { t with synced := true })
     (fun t ht => by rw [lookup_modify, if_neg ht]) (pairwise_keys_modify (R := (· ≠ ·)) _ _ h.disk.tnodup) j.afterTables
     (by intro m hm; rcases haft with e | e <;> rw [e] at hm <;> cases hm) _ rfl
+  case hnret => rw [hpc]; rfl
+  case hbc' => exact Or.inr (early_beforeCommit he')
   apply hok.early_next he (n, gs) (Or.inl ho) _ j.afterTables he'
   · intro o' ho'
     rw [ho] at ho'
